@@ -89,7 +89,7 @@ func (d *zzDag) AddMany(ctx context.Context, ns []ipld.Node) error {
 	return nil
 }
 
-func (d *zzDag) Remove(ctx context.Context, c cid.Cid) error         { return nil }
+func (d *zzDag) Remove(ctx context.Context, c cid.Cid) error        { return nil }
 func (d *zzDag) RemoveMany(ctx context.Context, cs []cid.Cid) error { return nil }
 
 func zzSplitter(size int64) chunker.SplitterGen {
